@@ -104,6 +104,19 @@ def run_unit(unit_name, rlimit=None, extra_args=(), auto_bits=()):
         res['notes'].append(str(e))
         res['wall_s'] = time.time() - t0
         return res, None
+    # R14: the annotated loops are compared with the loops the annotations were written for (specs/loop_heads.json, recorded
+    # on the pinned tree by tools/gen_loop_heads.py): a loop whose head now mentions other variables was rewritten, and the
+    # template's invariant / variant no longer describe it
+    res['restructured'] = {}
+    try:
+        ref = json.load(open(os.path.join(ROOT, 'specs', 'loop_heads.json'))).get(unit_name, {})
+        for fn_, loops_ in unit.loop_heads.items():
+            for k_, ids_ in loops_.items():
+                want = ref.get(fn_, {}).get(k_)
+                if want is not None and sorted(want) != sorted(ids_):
+                    res['restructured'][fn_] = 'loop %s of %s now runs over {%s}, the annotations were written for {%s}' % (k_, fn_, ', '.join(ids_), ', '.join(want))
+    except Exception:
+        pass
     gen = os.path.join(BUILD, unit_name + ('_retry' if auto_bits else '') + '.rs')
     open(gen, 'w').write(unit.text)
     res['notes'] = list(unit.notes)
@@ -118,6 +131,7 @@ def run_unit(unit_name, rlimit=None, extra_args=(), auto_bits=()):
             cres = pickle.load(open(cpath, 'rb'))
             cres['notes'] = list(unit.notes) + ['verdicts reused from an identical generated unit (sha %s)' % sha]
             cres['reused'] = True
+            cres['restructured'] = res['restructured']
             return cres, unit
         except Exception:
             pass
